@@ -37,6 +37,15 @@ namespace igris
 
     private:
         std::vector<value_type, Alloc> storage = {};
+        Compare _comp = {};
+
+        // like std::map: two keys are the same key when neither orders
+        // before the other under Compare (the parameter used to be ignored:
+        // lookup compared with ==, insert ordered with <)
+        bool same_key(const Key &a, const Key &b) const
+        {
+            return !_comp(a, b) && !_comp(b, a);
+        }
 
     public:
         flat_map() = default;
@@ -149,10 +158,11 @@ namespace igris
 
         T &operator[](const Key &key)
         {
-            auto it = std::find_if(
-                storage.begin(), storage.end(), [&key](const value_type &p) {
-                    return p.first == key;
-                });
+            auto it = std::find_if(storage.begin(),
+                                   storage.end(),
+                                   [&key, this](const value_type &p) {
+                                       return same_key(p.first, key);
+                                   });
 
             if (it == storage.end())
             {
@@ -165,10 +175,11 @@ namespace igris
 
         const T &operator[](const Key &key) const
         {
-            auto it = std::find_if(
-                storage.begin(), storage.end(), [&key](const value_type &p) {
-                    return p.first == key;
-                });
+            auto it = std::find_if(storage.begin(),
+                                   storage.end(),
+                                   [&key, this](const value_type &p) {
+                                       return same_key(p.first, key);
+                                   });
 
             if (it == storage.end())
             {
@@ -180,10 +191,11 @@ namespace igris
 
         T &at(const Key &key)
         {
-            auto it = std::find_if(
-                storage.begin(), storage.end(), [&key](const value_type &p) {
-                    return p.first == key;
-                });
+            auto it = std::find_if(storage.begin(),
+                                   storage.end(),
+                                   [&key, this](const value_type &p) {
+                                       return same_key(p.first, key);
+                                   });
 
             if (it == storage.end())
             {
@@ -195,10 +207,11 @@ namespace igris
 
         const T &at(const Key &key) const
         {
-            auto it = std::find_if(
-                storage.begin(), storage.end(), [&key](const value_type &p) {
-                    return p.first == key;
-                });
+            auto it = std::find_if(storage.begin(),
+                                   storage.end(),
+                                   [&key, this](const value_type &p) {
+                                       return same_key(p.first, key);
+                                   });
 
             if (it == storage.end())
             {
@@ -210,26 +223,29 @@ namespace igris
 
         iterator find(const Key &key)
         {
-            return std::find_if(
-                storage.begin(), storage.end(), [&key](const value_type &p) {
-                    return p.first == key;
-                });
+            return std::find_if(storage.begin(),
+                                storage.end(),
+                                [&key, this](const value_type &p) {
+                                    return same_key(p.first, key);
+                                });
         }
 
         const_iterator find(const Key &key) const
         {
-            return std::find_if(
-                storage.begin(), storage.end(), [&key](const value_type &p) {
-                    return p.first == key;
-                });
+            return std::find_if(storage.begin(),
+                                storage.end(),
+                                [&key, this](const value_type &p) {
+                                    return same_key(p.first, key);
+                                });
         }
 
         size_type count(const Key &key) const
         {
-            return std::count_if(
-                storage.begin(), storage.end(), [&key](const value_type &p) {
-                    return p.first == key;
-                });
+            return std::count_if(storage.begin(),
+                                 storage.end(),
+                                 [&key, this](const value_type &p) {
+                                     return same_key(p.first, key);
+                                 });
         }
 
         template <class... Args>
@@ -238,7 +254,9 @@ namespace igris
             auto it = std::find_if(
                 storage.begin(),
                 (iterator)storage.end(),
-                [&key](const value_type &p) { return p.first == key; });
+                [&key, this](const value_type &p) {
+                    return same_key(p.first, key);
+                });
             if (it != storage.end())
             {
                 return std::make_pair(it, false);
@@ -251,8 +269,8 @@ namespace igris
         {
             auto it = std::find_if(storage.begin(),
                                    (iterator)storage.end(),
-                                   [&value](const value_type &p) {
-                                       return p.first == value.first;
+                                   [&value, this](const value_type &p) {
+                                       return same_key(p.first, value.first);
                                    });
             if (it != storage.end())
             {
@@ -262,8 +280,9 @@ namespace igris
                 std::upper_bound(storage.begin(),
                                  (iterator)storage.end(),
                                  value,
-                                 [](const value_type &a, const value_type &b) {
-                                     return a.first < b.first;
+                                 [this](const value_type &a,
+                                        const value_type &b) {
+                                     return _comp(a.first, b.first);
                                  }),
                 value);
         }
